@@ -265,6 +265,7 @@ class Ast:
             icfg = tuple(a for a in it.get("attrs", []) if isinstance(a, str) and a.startswith("cfg"))
             if k == "Fn":
                 self.fns.append(Fn(it, path, mods=mods, cfgs=cfgs))
+                self._nested(it, path, mods + (it["name"],), cfgs)
             elif k == "Impl":
                 st = norm(it["self_ty"])
                 tr = norm(it["trait"]) if it.get("trait") else None
@@ -272,6 +273,7 @@ class Ast:
                 for ii in it["items"]:
                     if ii["k"] == "Fn":
                         self.fns.append(Fn(ii, path, impl_self=st, impl_trait=tr, mods=mods, cfgs=cfgs + icfg))
+                        self._nested(ii, path, mods + (st, ii["name"]), cfgs + icfg)
                     elif ii["k"] == "Const":
                         self.consts[(path, st, ii["name"])] = ii
                     elif ii["k"] == "Macro":
@@ -292,6 +294,15 @@ class Ast:
                     self._index(it["items"], path, mods + (it["name"],), cfgs + icfg)
             elif k == "ItemMacro":
                 self.item_macros.append((path, mods, it))
+
+    def _nested(self, fn_node, path, mods, cfgs):
+        """fn items declared inside a function body"""
+        body = fn_node.get("body")
+        if not body:
+            return
+        for n in walk(body):
+            if n is not fn_node and n["k"] == "Fn" and n.get("body") is not None:
+                self.fns.append(Fn(n, path, mods=mods, cfgs=cfgs))
 
     def fn(self, file_suffix, name, impl_self=None, impl_trait=None, allow_test=False):
         """the unique fn matching; None if absent. impl_self/impl_trait matched by suffix/contains."""
